@@ -1,1 +1,18 @@
-fn main() { println!("stub"); }
+//! Operator-level drivers, part 2 (C06 grouped aggregation, C07 accumulators, C09 window functions)
+//! — DESIGN.md §7.1.  Each sub-command replays TLC-generated cases into the real code (B3).
+mod c06;
+mod c07;
+mod vals;
+
+fn main() {
+    let a: Vec<String> = std::env::args().collect();
+    let cmd = a.get(1).map(|s| s.as_str()).unwrap_or("");
+    match cmd {
+        "c06" => c06::main(),
+        "c07" => c07::main(),
+        _ => {
+            eprintln!("usage: vops2 <c06|c07|c09> --in FILE --out FILE");
+            std::process::exit(2);
+        }
+    }
+}
